@@ -399,7 +399,9 @@ theorem createPlan_wf {inp vals : Input} {dt : TypeArg ⊕ DType} {n : Nat} (hwf
     · simp at h
     · split at h
       · simp at h
-      · simp at h; rw [← h.2.2]; exact hwf
+      · split at h
+        · simp at h; rw [← h.2.2]; exact hwf
+        · simp at h
     · simp at h
 
 theorem createProperty_trans {st : State} {name : Str} {inp : Input} (hwf : inp.WF = true) :
